@@ -36,11 +36,13 @@ Inductive op :=
 | Update (vss : list (list elt))  (* x.f.update(it1, it2, ...) *)
 | AssignView (v : view)           (* x.f = <a LAZY iterable over x.f itself>: Python evaluates it against the OLD contents *)
 | SetSliceView (i j : Z) (v : view)  (* x.f[i:j] = <a lazy iterable over x.f itself>: list.__setitem__ materialises it before it changes the list *)
-| IAugAlias (vs : list elt).      (* c = x.f; c += vs  /  c |= set(vs): the in-place operator through another reference to the container *)
+| IAugAlias (vs : list elt)       (* c = x.f; c += vs  /  c |= set(vs): the in-place operator through another reference to the container *)
+| ExtendLazyNew (cands : list elt). (* x.f.extend(v for v in cands if v not in x.f): a LAZY iterable that reads the field *)
 
 Definition applicable (k : kind) (o : op) : bool :=
   match k, o with
   | _, Assign _ | _, AssignSelf | _, IAug _ | _, IAugAlias _ => true
+  | KList, ExtendLazyNew _ => true
   | KList, AssignView _ => true
   | KSet, AssignView VRev => false   (* a set is not reversible *)
   | KSet, AssignView _ => true
@@ -107,6 +109,7 @@ Definition py_step (k : kind) (o : op) (l : list elt) : list elt * bool :=
   | KSet, Add x => (set_add x l, false)
   | KSet, Update vss => (fold_left set_union vss l, false)
   | KList, SetSliceView i j v => (py_setslice i j (view_apply v l) l, false)
+  | KList, ExtendLazyNew cands => (extend_lazy_new cands l, false)
   | KList, IAugAlias vs => (l ++ vs, false)
   | KSet, IAugAlias vs => (set_union l vs, false)
   | KList, AssignView v => (view_apply v l, false)
